@@ -19,7 +19,7 @@
 #include CHART_FILE
 
 #define MAXQ 256
-typedef struct { char name[64]; } ev_t;
+typedef struct { char name[80]; int np; char pname[4][16]; long pval[4]; } ev_t;
 static ev_t* iq[MAXQ]; static int iqh = 0, iqt = 0;
 static ev_t* eq[MAXQ]; static int eqh = 0, eqt = 0;
 static struct { char name[16]; long val; int set; } vars[16];
@@ -29,12 +29,13 @@ static int narrs = 0;
 static struct { const void* f; int arr; int cur; } fes[64];
 static int nfes = 0;
 static const char* cur_event = NULL;
+static ev_t* cur_ev = NULL;
 static uscxml_ctx ctx;
 static uscxml_ctx* CUR = &ctx;   /* the machine whose callbacks are running (a nested machine while do_invoke drives it) */
 static int depth = 0;
 static int failed_eval = 0;
 
-static ev_t* mkev(const char* n) { ev_t* e = (ev_t*)calloc(1, sizeof(ev_t)); strncpy(e->name, n, 63); return e; }
+static ev_t* mkev(const char* n) { ev_t* e = (ev_t*)calloc(1, sizeof(ev_t)); strncpy(e->name, n, 79); return e; }
 static void push(ev_t** q, int* t, const char* n) { if (*t < MAXQ) q[(*t)++] = mkev(n); }
 
 static long* var(const char* n, int create) {
@@ -83,6 +84,14 @@ static long atom(void) {
 			sid[n] = 0; if (*P == ']') P++;
 			return in_state(sid);
 		}
+		if (strcmp(id, "_event") == 0 && strncmp(P, ".data.", 6) == 0) {
+			/* a value that travelled with the event as <param> */
+			char pn[16]; int k; n = 0; P += 6;
+			while ((isalnum((unsigned char)*P) || *P == '_') && n < 15) pn[n++] = *P++;
+			pn[n] = 0;
+			if (cur_ev) for (k = 0; k < cur_ev->np; k++) if (strcmp(cur_ev->pname[k], pn) == 0) return cur_ev->pval[k];
+			failed_eval = 1; return 0;
+		}
 		{ long* v = var(id, 0); if (!v) { failed_eval = 1; return 0; } return *v; }
 	}
 	failed_eval = 1; return 0;
@@ -113,8 +122,8 @@ static long eval(const char* s, int* err) { failed_eval = 0; P = s; long v = exp
 static int err_exec(void) { push(iq, &iqt, "error.execution"); return USCXML_ERR_EXEC_CONTENT; }
 
 /* ---- callbacks ---- */
-static void* dequeue_internal(const uscxml_ctx* c) { if (iqh < iqt) { ev_t* e = iq[iqh++]; if (!depth) printf("E %s\n", e->name); cur_event = e->name; return e; } return NULL; }
-static void* dequeue_external(const uscxml_ctx* c) { if (eqh < eqt) { ev_t* e = eq[eqh++]; if (!depth) printf("E %s\n", e->name); cur_event = e->name; return e; } return NULL; }
+static void* dequeue_internal(const uscxml_ctx* c) { if (iqh < iqt) { ev_t* e = iq[iqh++]; if (!depth) printf("E %s\n", e->name); cur_event = e->name; cur_ev = e; return e; } return NULL; }
+static void* dequeue_external(const uscxml_ctx* c) { if (eqh < eqt) { ev_t* e = eq[eqh++]; if (!depth) printf("E %s\n", e->name); cur_event = e->name; cur_ev = e; return e; } return NULL; }
 
 static int tok_match(const char* descs, const char* name) {
 	/* Rec. 3.12.1: token-wise prefix, '*' matches all, trailing .* / . ignored */
@@ -144,8 +153,19 @@ static int exec_log(const uscxml_ctx* c, const char* label, const char* ex) {
 static int exec_raise(const uscxml_ctx* c, const char* event) { push(iq, &iqt, event); return USCXML_ERR_OK; }
 static int exec_send(const uscxml_ctx* c, const uscxml_elem_send* s) {
 	if (s->type && strcmp(s->type, "http://www.w3.org/TR/scxml/#SCXMLEventProcessor") != 0) return err_exec();
-	if (s->target && strcmp(s->target, "#_internal") == 0) push(iq, &iqt, s->event ? s->event : "");
-	else push(eq, &eqt, s->event ? s->event : "");
+	{
+		ev_t** q = (s->target && strcmp(s->target, "#_internal") == 0) ? iq : eq; int* t = (q == iq) ? &iqt : &eqt; int before = *t;
+		push(q, t, s->event ? s->event : "");
+		if (*t > before && s->params) {
+			/* <param name expr>: evaluated now, carried by this instance of the event */
+			const uscxml_elem_param* pr = s->params; ev_t* e = q[*t - 1];
+			while (USCXML_ELEM_PARAM_IS_SET(pr) && e->np < 4) {
+				int err = 0; long v = pr->expr ? eval(pr->expr, &err) : 0;
+				if (err) return err_exec();
+				strncpy(e->pname[e->np], pr->name ? pr->name : "", 15); e->pval[e->np++] = v; pr++;
+			}
+		}
+	}
 	return USCXML_ERR_OK;
 }
 static int exec_assign(const uscxml_ctx* c, const uscxml_elem_assign* a) {
